@@ -1223,7 +1223,9 @@ def unique_counts(x, /):
 
     x = x.flatten()
     values, counts = np.unique(x.data, return_counts=True)
-    if x.nnz < x.size:
+    if x.nnz < x.size and np.any(values == x.fill_value):
+        counts[values == x.fill_value] += x.size - x.nnz
+    elif x.nnz < x.size:
         values = np.concatenate([[x.fill_value], values])
         counts = np.concatenate([[x.size - x.nnz], counts])
         sorted_indices = np.argsort(values)
